@@ -214,6 +214,7 @@ func C06(ctx *core.Ctx, r *core.Report) {
 	c06ValueDelivery(ctx, r, g)
 	c06CanonicalDecode(ctx, r, g)
 	c06DecodeOnce(ctx, r, g)
+	c06CommentEndBehindOpener(ctx, r)
 	c06BuilderErrorChecked(ctx, r, g)
 	c06StackBalance(ctx, r, g)
 	c06KeywordLiterals(ctx, r, g)
